@@ -39,7 +39,17 @@ def inst_recv_set(cx, iid):
         if len(resets) != 1 or resets[0] != "RecvRateSet::reset(arg1,arg2,%s)" % show(ret):
             inst.violation(rm.path, "replace_max", "replace_max stores %s but returns `%s`" % (resets, show(ret)))
         vals = sorted(show(v) for _, v in [(a, c) for a, c in __import__("rules").case_values(cx, rm, ret)])
-        if vals != ["Ord::max(RecvRateSet::max(arg1),arg3)", "arg3"] and vals != ["Ord::max(arg3,RecvRateSet::max(arg1))", "arg3"]:
+        fold_ok = False
+        mf = re.fullmatch(r"(?:Iterator|Iter)::fold\((?:\[T\]::iter|Vec::iter)\(arg1\.entries\),arg3,closure:(\S+?)\{\}\)", vals[0]) if len(vals) == 1 else None
+        if mf:
+            # the same maximum as one fold seeded with X_recv: entries.iter().fold(recv_rate, |acc, e| acc.max(e.value))
+            try:
+                cbody = show(R.body(mf.group(1)).local_expr(0))
+            except Exception:
+                cbody = None
+            fold_ok = cbody in ("Ord::max(arg2,arg3.value)", "Ord::max(arg3.value,arg2)")
+            inst.site(rm, None, "replace_max value = fold(X_recv, max) with body %s" % cbody)
+        if not fold_ok and vals != ["Ord::max(RecvRateSet::max(arg1),arg3)", "arg3"] and vals != ["Ord::max(arg3,RecvRateSet::max(arg1))", "arg3"]:
             inst.violation(rm.path, "replace_max value", "replace_max maximises over %s, expected {X_recv if the set is empty, max(set, X_recv) otherwise}" % vals)
         lu = R.body(RS + "loss_increase_update")
         halv = [show(lu.rvalue_expr(n["rv"])) for l, n, ps in lu.field_writes(r".*\.value") if n["k"] == "assign"]
